@@ -282,7 +282,7 @@ Section Sim.
   Proof.
     intros f s0 H. unfold step_ok_b in H. apply andb_prop in H as [H Hc]. apply andb_prop in H as [H He]. apply andb_prop in H as [_ Hi].
     split; [exact Hi|]. split.
-    - intros K. rewrite K in He. apply Nat.leb_le. exact He.
+    - intros K. rewrite K in He. apply andb_prop in He as [He _]. apply Nat.leb_le. exact He.
     - intros l src Hin. rewrite forallb_forall in Hc. specialize (Hc _ Hin). unfold contained_b in Hc. cbn [fst snd] in Hc.
       unfold e0. destruct (get_loc l (ls_data (fst (run_fetch unit (clean_exchange answer root_answer kind_of) f (s0, tt))))) as [w|] eqn:G; [|discriminate].
       exists w. split; [reflexivity|exact Hc].
@@ -320,9 +320,8 @@ Section Sim.
 
   (* when the faulty run loads, the fault-free run loads a covering request, and everything the
      faulty run would merge from the clean answer is contained in the fault-free data after the step *)
-  Definition load_ok (f : fetch) (s0 : lstate) (itemsF : list rpath) (rqF : request) (batchF : option (list (list rpath))) : Prop :=
-    let D := ls_data (fst (run_fetch unit e0 f (s0, tt))) in
-    (exists d0 rq0 batch0, prepare f (ls_data s0) (select_items (ls_data s0) (f_path f)) = PLoad d0 rq0 batch0 /\ request_covered rqF rq0 = true) /\
+  Definition load_ok (f : fetch) (dB D : json) (itemsF : list rpath) (rqF : request) (batchF : option (list (list rpath))) : Prop :=
+    (exists d0 rq0 batch0, prepare f dB (select_items dB (f_path f)) = PLoad d0 rq0 batch0 /\ request_covered rqF rq0 = true) /\
     itemsF <> [] /\ (batchF = None -> exists l, itemsF = [l]) /\
     (forall resp rd, rs_err (clean_of f rqF) = false -> rs_body (clean_of f rqF) = BJson resp -> get_loc (f_datapath f) resp = Some rd ->
        match batchF with
@@ -331,47 +330,52 @@ Section Sim.
                     forall locs src, In (locs, src) (combine bs ents) -> forall l, In l locs -> exists w, get_loc l D = Some w /\ sub_b src w = true
        end).
 
-  Lemma load_sim_single : forall f s0 dataF dF rqF batchF,
-    f_kind f = FSingle -> fetch_ok kind_of f = true -> step_ok_b answer root_answer kind_of f s0 = true ->
-    sub_b dataF (ls_data s0) = true ->
+  (* what the bigger side's step guarantees: at most one item for an entity fetch, and everything it
+     merges (its targets) is contained in the bound D *)
+  Definition big_facts (f : fetch) (dB D : json) : Prop :=
+    (f_kind f = FEntity -> (length (select_items dB (f_path f)) <= 1)%nat) /\
+    forall l src, In (l, src) (targets answer root_answer f dB) -> exists w, get_loc l D = Some w /\ sub_b src w = true.
+
+  Lemma load_sim_single : forall f dB D dataF dF rqF batchF,
+    f_kind f = FSingle -> fetch_ok kind_of f = true -> big_facts f dB D ->
+    sub_b dataF dB = true ->
     prepare f dataF (select_items dataF (f_path f)) = PLoad dF rqF batchF ->
-    load_ok f s0 (select_items dataF (f_path f)) rqF batchF.
+    load_ok f dB D (select_items dataF (f_path f)) rqF batchF.
   Proof.
-    intros f s0 dataF dF rqF batchF K Hok Hstep Hs HP.
+    intros f dB D dataF dF rqF batchF K Hok [Hone Hcont] Hs HP.
     destruct (fetch_ok_inv f Hok) as (Hk & Hd & Hnt & Hmp & Hkind). rewrite K in Hkind.
-    destruct (targets_contained f s0 Hstep) as (Hinfl & _ & Hcont).
-    rewrite Hkind in *. change (select_items dataF []) with [@nil pelem] in *. change (select_items (ls_data s0) []) with [@nil pelem] in *.
+    rewrite Hkind in *. change (select_items dataF []) with [@nil pelem] in *. change (select_items dB []) with [@nil pelem] in *.
     unfold prepare in HP. rewrite K in HP. cbn [get_loc] in HP.
     assert (HdF : dataF <> JNull) by (intro E; rewrite E in HP; discriminate).
     assert (HrqF : rqF = mk_request f [] /\ batchF = None) by (destruct dataF; inversion HP; split; reflexivity).
     destruct HrqF as [-> ->].
-    assert (Hd0 : ls_data s0 <> JNull) by (intro E; rewrite E in Hs; apply sub_null_inv in Hs; contradiction).
-    assert (HP0 : prepare f (ls_data s0) [[]] = PLoad (ls_data s0) (mk_request f []) None).
-    { unfold prepare. rewrite K. cbn [get_loc]. destruct (ls_data s0); try reflexivity. contradiction. }
-    unfold load_ok. rewrite Hkind. change (select_items (ls_data s0) []) with [@nil pelem]. split; [|split; [discriminate|split; [intros _; eexists; reflexivity|]]].
+    assert (Hd0 : dB <> JNull) by (intro E; rewrite E in Hs; apply sub_null_inv in Hs; contradiction).
+    assert (HP0 : prepare f dB [[]] = PLoad dB (mk_request f []) None).
+    { unfold prepare. rewrite K. cbn [get_loc]. destruct dB; try reflexivity. contradiction. }
+    unfold load_ok. rewrite Hkind. change (select_items dB []) with [@nil pelem]. split; [|split; [discriminate|split; [intros _; eexists; reflexivity|]]].
     - eexists _, _, _. split; [exact HP0|]. apply request_covered_same. intros b [].
     - intros resp rd _ Hb Hg l E. inversion E; subst l.
       unfold clean_of in Hb. rewrite K in Hb.
       destruct (clean_single_rdata answer root_answer (mk_request f [])) as (resp' & Hb' & _ & Hg').
       rewrite Hb' in Hb. inversion Hb; subst resp'. rewrite Hd, K in Hg. rewrite Hg' in Hg. inversion Hg; subst rd.
-      apply Hcont. unfold targets. rewrite K, Hkind. change (select_items (ls_data s0) []) with [@nil pelem]. rewrite HP0. left. reflexivity.
+      apply Hcont. unfold targets. rewrite K, Hkind. change (select_items dB []) with [@nil pelem]. rewrite HP0. left. reflexivity.
   Qed.
 
   Lemma flat_render_null : forall fields, flat_render fields JNull = Some b_null.
   Proof. reflexivity. Qed.
 
-  Lemma load_sim_entity : forall f s0 dataF dF rqF batchF,
-    f_kind f = FEntity -> fetch_ok kind_of f = true -> step_ok_b answer root_answer kind_of f s0 = true ->
-    sub_b dataF (ls_data s0) = true ->
+  Lemma load_sim_entity : forall f dB D dataF dF rqF batchF,
+    f_kind f = FEntity -> fetch_ok kind_of f = true -> big_facts f dB D ->
+    sub_b dataF dB = true ->
     prepare f dataF (select_items dataF (f_path f)) = PLoad dF rqF batchF ->
-    load_ok f s0 (select_items dataF (f_path f)) rqF batchF.
+    load_ok f dB D (select_items dataF (f_path f)) rqF batchF.
   Proof.
-    intros f s0 dataF dF rqF batchF K Hok Hstep Hs HP.
+    intros f dB D dataF dF rqF batchF K Hok [Hone Hcont] Hs HP.
     destruct (fetch_ok_inv f Hok) as (Hk & Hd & Hnt & Hmp & Hkind). rewrite K in Hkind.
-    destruct (targets_contained f s0 Hstep) as (Hinfl & Hone & Hcont). specialize (Hone K).
+    specialize (Hone K).
     destruct (rep_wf_inv _ Hkind) as (ty & inacc & fields & Hrep & Hf).
-    pose proof (select_items_inv dataF (ls_data s0) (f_path f) Hs Hnt) as Hinv.
-    set (itemsF := select_items dataF (f_path f)) in *. set (items0 := select_items (ls_data s0) (f_path f)) in *.
+    pose proof (select_items_inv dataF dB (f_path f) Hs Hnt) as Hinv.
+    set (itemsF := select_items dataF (f_path f)) in *. set (items0 := select_items dB (f_path f)) in *.
     unfold prepare in HP. rewrite K, Hrep in HP. rewrite (render_rep_flat ty inacc fields _ Hf) in HP.
     destruct (flat_render fields (items_data dataF itemsF)) as [b|] eqn:FR; [|discriminate].
     destruct (bytes_eqb b b_null || bytes_eqb b b_empty_obj) eqn:Sk; [discriminate|].
@@ -395,7 +399,7 @@ Section Sim.
     { eapply flat_render_mono; try eassumption.
       - intro E. subst b. rewrite bytes_eqb_refl in N1. discriminate.
       - intro E. subst b. rewrite bytes_eqb_refl in N2. discriminate. }
-    assert (HP0 : prepare f (ls_data s0) items0 = PLoad (ls_data s0) (mk_request f [b]) None).
+    assert (HP0 : prepare f dB items0 = PLoad dB (mk_request f [b]) None).
     { unfold prepare. rewrite K, Hrep, E0. rewrite (render_rep_flat ty inacc fields _ Hf).
       rewrite (items_data_one _ _ _ G0), FR0, N1, N2. cbn [orb]. rewrite (set_loc_same _ _ _ G0). reflexivity. }
     unfold load_ok. split; [|split; [rewrite EI; discriminate|split; [intros _; exists l; exact EI|]]].
@@ -417,20 +421,19 @@ Section Sim.
     cbn [fst snd]. apply in_map_iff. exists l. split; [reflexivity|exact Hl].
   Qed.
 
-  Lemma load_sim_batch : forall f s0 dataF dF rqF batchF,
-    f_kind f = FBatch -> fetch_ok kind_of f = true -> step_ok_b answer root_answer kind_of f s0 = true ->
-    sub_b dataF (ls_data s0) = true ->
+  Lemma load_sim_batch : forall f dB D dataF dF rqF batchF,
+    f_kind f = FBatch -> fetch_ok kind_of f = true -> big_facts f dB D ->
+    sub_b dataF dB = true ->
     prepare f dataF (select_items dataF (f_path f)) = PLoad dF rqF batchF ->
-    load_ok f s0 (select_items dataF (f_path f)) rqF batchF.
+    load_ok f dB D (select_items dataF (f_path f)) rqF batchF.
   Proof.
-    intros f s0 dataF dF rqF batchF K Hok Hstep Hs HP.
+    intros f dB D dataF dF rqF batchF K Hok [Hone Hcont] Hs HP.
     destruct (fetch_ok_inv f Hok) as (Hk & Hd & Hnt & Hmp & Hkind). rewrite K in Hkind.
-    destruct (targets_contained f s0 Hstep) as (Hinfl & _ & Hcont).
     destruct (rep_wf_inv _ Hkind) as (ty & inacc & fields & Hrep & Hf).
-    pose proof (select_items_inv dataF (ls_data s0) (f_path f) Hs Hnt) as Hinv.
-    set (itemsF := select_items dataF (f_path f)) in *. set (items0 := select_items (ls_data s0) (f_path f)) in *.
+    pose proof (select_items_inv dataF dB (f_path f) Hs Hnt) as Hinv.
+    set (itemsF := select_items dataF (f_path f)) in *. set (items0 := select_items dB (f_path f)) in *.
     destruct (batch_prepare_flat ty inacc fields itemsF dataF [] Hf) as (bsF & HbF & HspecF).
-    destruct (batch_prepare_flat ty inacc fields items0 (ls_data s0) [] Hf) as (bs0 & Hb0 & Hspec0).
+    destruct (batch_prepare_flat ty inacc fields items0 dB [] Hf) as (bs0 & Hb0 & Hspec0).
     pose proof (batch_prepare_nonempty (NObj [] true ty [] inacc false fields) itemsF dataF [] (fun b locs (H : In (b, locs) []) => match H with end)) as HneF.
     rewrite HbF in HneF. cbn [snd] in HneF.
     unfold prepare in HP. rewrite K, Hrep, HbF in HP.
@@ -454,7 +457,7 @@ Section Sim.
     destruct bk0 as [b1 locs1].
     destruct (Hbucket b1 locs1) as (l1 & Hl1 & Hib1); [rewrite EB; left; reflexivity|].
     destruct (Htrans b1 l1 Hib1) as [HlF (locs0 & Hin0 & _)].
-    assert (HP0 : prepare f (ls_data s0) items0 = PLoad (ls_data s0) (mk_request f (map fst bs0)) (Some (map snd bs0))).
+    assert (HP0 : prepare f dB items0 = PLoad dB (mk_request f (map fst bs0)) (Some (map snd bs0))).
     { unfold prepare. rewrite K, Hrep, Hb0. destruct bs0; [contradiction|reflexivity]. }
     unfold load_ok. fold items0. split; [|split; [intro E; rewrite E in HlF; contradiction|split; [discriminate|]]].
     - eexists _, _, _. split; [exact HP0|]. apply request_covered_same. intros b Hb.
@@ -512,7 +515,9 @@ Section Sim.
     subst dF.
     destruct (fetch_ok_inv f Hok) as (Hk & Hd & Hnt & Hmp & Hkind).
     destruct (prepare_request _ _ _ _ _ _ HP) as [Hrq Hbatch].
-    assert (Hload : load_ok f s0 (select_items (ls_data sF) (f_path f)) rqF batchF).
+    assert (Hbig : big_facts f (ls_data s0) (ls_data s0')).
+    { destruct (targets_contained f s0 Hstep) as (_ & Hone & Hcont). split; assumption. }
+    assert (Hload : load_ok f (ls_data s0) (ls_data s0') (select_items (ls_data sF) (f_path f)) rqF batchF).
     { destruct (f_kind f) eqn:K; [eapply load_sim_single|eapply load_sim_entity|eapply load_sim_batch]; try eassumption; exact (R_sub _ _ HR). }
     destruct Hload as ((d0 & rq0 & batch0 & HP0 & Hcov) & HneF & Hone & Hcont).
     assert (Hreq0 : In rq0 (ls_reqs s0')).
